@@ -52,7 +52,7 @@ def _age(md, n: int) -> None:
 
 
 _BOUNDARIES: list[int] | None = None
-GENERIC_AGES = [17, 17, 33, 33, 64, 65, 100, 128, 129, 257]
+GENERIC_AGES = [17, 17, 17, 33, 33, 64, 65, 100, 128, 129, 200]
 DISCOVERY_MAX = 1100
 
 
@@ -339,6 +339,10 @@ def gen(rng: random.Random, tier: str) -> dict:
                 spec = {"wc": rng.random(), "loc": rng.random() < 0.5}
             else:
                 spec = {"frac": rng.random(), "of": "t0"}
+            if ("ws" in spec or "wc" in spec) and start[0] in ("fresh", "reconfigured") and rng.random() < 0.7:
+                # on a fresh / reconfigured instance the writes are the chain compilation, which the (cheaper)
+                # first-use windows already cover
+                spec = {"fu": spec.get("ws", spec.get("wc"))}
             rec["switches"] = [[spec, 0]]
         elif k < 0.65:
             rec["sched"] = "K2"
@@ -364,6 +368,16 @@ def gen(rng: random.Random, tier: str) -> dict:
 
 
 # --------------------------------------------------------------------------- execution
+def _module_warmup():
+    """Fixed, untraced use of the library that fills whatever process-global memos the tree keeps."""
+    mode = sched._mode
+    sched.set_mode(None)
+    try:
+        docgen.build(BASE_CFG).render(WARM_DOC)
+    finally:
+        sched.set_mode(mode)
+
+
 def _traced(fn, budget=5_000_000, record=False, watch=None):
     """Run fn() on this thread as simulated thread 0 of a single-thread Sim (steps are counted)."""
     sim = sched.Sim(1, [], [budget], record_trace=record)
@@ -418,13 +432,6 @@ def _resolve(switches, t0_steps, total, fu_steps, w0=(), wc_steps=(), wc_locs=No
 def execute(rec: dict, res: RunResult) -> None:
     sched.setup()
     sched.set_mode(rec["gran"])
-    if rec.get("cold_text_cache"):
-        try:
-            from markdown_it.rules_inline import text as _t
-            _t._terminator_char_regex.cache_clear()
-            res.count("cold_module_cache")
-        except AttributeError:
-            pass
     threads = rec["threads"]
     nested = rec.get("nested")
     n = len(threads)
@@ -436,6 +443,15 @@ def execute(rec: dict, res: RunResult) -> None:
         if boundaries():
             res.count("aged_to_a_discovered_capacity_limit")
 
+    # every run starts from the same process-global library state (module/class-level memos as they were after the
+    # fixed warm-up, functools caches empty): a run is a function of its record, not of what the worker ran before
+    if shared_state.reset_module_state():
+        res.count("runs_that_found_module_state_left_by_an_earlier_run")
+    cold = bool(rec.get("cold_text_cache"))
+    if cold:
+        res.count("cold_module_cache")
+    else:
+        _module_warmup()
     # ---- 1. solo outcomes (each call alone on a fresh, identically configured instance in the same start state)
     solo, solo_steps, nest_counts = [], [], {}
     fu_steps: list[int] = []
@@ -458,6 +474,8 @@ def execute(rec: dict, res: RunResult) -> None:
                     return call_outcome(twin, m, d, ek)
                 finally:
                     _ctx.cur = None
+            if cold:
+                shared_state.reset_module_state()
             fp0 = shared_state.fingerprint(twin) if need_w else None
             out, sim = _traced(run, record=record)
             if need_w:
@@ -467,6 +485,8 @@ def execute(rec: dict, res: RunResult) -> None:
                     # probes on exactly the changed places to learn WHEN (the writer's race windows) and WHERE
                     res.count("solo_calls_that_write_shared_state")
                     twin2 = build_shared(rec)
+                    if cold:
+                        shared_state.reset_module_state()
                     wt = shared_state.Watch(twin2, chains)
                     arm2 = _Arm(None, None, None)
                     (_, sim2) = _traced(lambda: run(twin=twin2, arm=arm2), record=True, watch=wt)
@@ -522,6 +542,8 @@ def execute(rec: dict, res: RunResult) -> None:
 
     # ---- 2. the concurrent / nested phase on ONE shared instance
     md = build_shared(rec)
+    if cold:
+        shared_state.reset_module_state()      # module-level first-use effects happen INSIDE the concurrent phase
     before = (md.get_active_rules(), dict(md.options))
     results = [[None] * len(threads[t]) for t in range(n)]
     arms: dict = {}
@@ -670,6 +692,8 @@ class C13(Engine):
         for mode in ("INSTRUCTION", "LINE"):
             sched.set_mode(mode)
             _traced(work)
+        # process-global library state as of now is what every run starts from (functools caches are emptied on top)
+        shared_state.snapshot_module_state()
 
     def gen(self, rng, i, tier):
         return gen(rng, tier)
